@@ -17,6 +17,7 @@ type Config struct {
 	Backends        map[string]string `json:"backends,omitempty"` // "<instance name>:<uuid>" -> store alias ("second")
 	NoLogStore      bool              `json:"no_log_store,omitempty"`
 	MutLogJSON      bool              `json:"mutlog_json,omitempty"` // enable [mutations] jsonstore
+	LockYield       bool              `json:"lock_yield,omitempty"`  // park request goroutines before every mutex acquisition made from DVID's own sources
 	Verbose         bool              `json:"verbose,omitempty"`
 	Faults          *FaultPlan        `json:"faults,omitempty"` // active from the first store call of start-up
 	Sched           Sched             `json:"sched"`            // schedule source for the boot phase
